@@ -247,6 +247,7 @@ func (m *monitor) fragment(tb *bo.TableBox, spec *tableSpec, cb float64, cbKnown
 	}
 	var prevGroupBottom, prevRowBottom float64
 	havePrevRow := false
+	prevOrder := -1
 	for gi, gb := range tb.Children {
 		gf := gb.Box()
 		gid := elemID(gf)
@@ -255,6 +256,12 @@ func (m *monitor) fragment(tb *bo.TableBox, spec *tableSpec, cb float64, cbKnown
 			m.fail("unknown-group", "%s: row group %q is not one of the table's groups", T, gid)
 			return
 		}
+		// groups appear in layout order: header first, footer last (CSS 2.1 §17.2)
+		if gi > 0 && oi <= prevOrder {
+			m.fail("group-order", "%s: row group %s (layout position %d) is laid out after position %d", T, gid, oi, prevOrder)
+			return
+		}
+		prevOrder = oi
 		gs := ref.Order[oi]
 		gh, ok := mf(gf.Height)
 		if !ok || gh < 0 && !near(gh, 0) && !m.in.Paged {
@@ -402,6 +409,14 @@ func (m *monitor) fragment(tb *bo.TableBox, spec *tableSpec, cb float64, cbKnown
 				if cw < 0 && !near(cw, 0) || ch < 0 && !near(ch, 0) {
 					m.fail("negative-cell", "%s: used content width %v height %v", C, cw, ch)
 					return
+				}
+				// paddings and borders are part of the cell's used size: none may be negative
+				// (row-height resolution adds padding to cells, it must never remove any)
+				for _, v := range []pr.MaybeFloat{cf.PaddingTop, cf.PaddingBottom, cf.PaddingLeft, cf.PaddingRight, cf.BorderTopWidth, cf.BorderBottomWidth, cf.BorderLeftWidth, cf.BorderRightWidth} {
+					if x, ok := mf(v); !ok || x < 0 && !near(x, 0) {
+						m.fail("negative-cell-padding", "%s: used padding [%v %v %v %v] border [%v %v %v %v] (top right bottom left)", C, cf.PaddingTop, cf.PaddingRight, cf.PaddingBottom, cf.PaddingLeft, cf.BorderTopWidth, cf.BorderRightWidth, cf.BorderBottomWidth, cf.BorderLeftWidth)
+						return
+					}
 				}
 				o := &obsCell{id: cid, spec: cs, s: s, f: cf}
 				o.l = float64(cf.BorderBoxX())
